@@ -15,17 +15,26 @@ import (
 type WFault int
 
 const (
-	WNone        WFault = iota
-	WErrOnce            // (0, err) at call k only
-	WErrSticky          // (0, err) at call k and every later call
-	WShortErr           // (m < len, io.ErrShortWrite) at call k
-	WShortNil           // (m < len, nil) at call k: a short count without an error
-	WShortOneNil        // (len-1, nil) at call k: short by exactly one byte, no error
+	WNone         WFault = iota
+	WErrOnce             // (0, err) at call k only
+	WErrSticky           // (0, err) at call k and every later call
+	WShortErr            // (m < len, io.ErrShortWrite) at call k
+	WShortNil            // (m < len, nil) at call k: a short count without an error
+	WShortOneNil         // (len-1, nil) at call k: short by exactly one byte, no error
+	WErrEOF              // (0, io.EOF) at call k only: an error value that reading code often treats as "done"
+	WErrTemporary        // (0, err with Temporary() == true) at call k only
 	nWFault
 )
 
+// tempErr is an error that claims to be temporary (like a net.Error after a deadline).
+type tempErr struct{}
+
+func (tempErr) Error() string   { return "injected temporary failure" }
+func (tempErr) Temporary() bool { return true }
+func (tempErr) Timeout() bool   { return true }
+
 func (k WFault) String() string {
-	return [...]string{"none", "err-once", "err-sticky", "short+ErrShortWrite", "short+nil", "short-by-one+nil"}[k]
+	return [...]string{"none", "err-once", "err-sticky", "short+ErrShortWrite", "short+nil", "short-by-one+nil", "err-once(io.EOF)", "err-once(temporary)"}[k]
 }
 
 var errInjected = errors.New("injected writer failure")
@@ -55,6 +64,14 @@ func (w *FaultyWriter) Write(p []byte) (int, error) {
 			w.Fired++
 			w.FiredAt = append(w.FiredAt, w.Calls)
 			return 0, errInjected
+		case WErrEOF:
+			w.Fired++
+			w.FiredAt = append(w.FiredAt, w.Calls)
+			return 0, io.EOF
+		case WErrTemporary:
+			w.Fired++
+			w.FiredAt = append(w.FiredAt, w.Calls)
+			return 0, tempErr{}
 		case WShortErr, WShortNil, WShortOneNil:
 			if len(p) == 0 {
 				break // a zero-length write cannot be short; nothing fires
